@@ -69,9 +69,9 @@ func genRecordText(r *rand.Rand) []byte {
 func runC09(c *mon.Ctx) {
 	r := c.Rng
 	// ---- dense store built by appending records one at a time -------------------------------
-	sizes := []int{c.Scale(700, 6000)}
+	sizes := []int{c.Scale(700, 30000)}
 	if c.Batch%4 == 1 {
-		sizes = []int{c.Scale(257, 4097)}
+		sizes = []int{c.Scale(257, 16385)}
 	}
 	for _, N := range sizes {
 		recs := genRecords(r, N)
@@ -281,7 +281,7 @@ func runC09(c *mon.Ctx) {
 	}
 
 	// ---- sparse huge coordinates ------------------------------------------------------------
-	nCoord := c.Share(c.Scale(200_000, 10_000_000))
+	nCoord := c.Share(c.Scale(200_000, 60_000_000))
 	for i := 0; i < nCoord; i++ {
 		lvl := r.IntN(61)
 		maxOff := int64(1) << uint(61-lvl)
@@ -338,7 +338,7 @@ func runC09(c *mon.Ctx) {
 	}
 
 	// ---- text codecs --------------------------------------------------------------------------
-	nCodec := c.Share(c.Scale(100_000, 6_000_000))
+	nCodec := c.Share(c.Scale(100_000, 30_000_000))
 	for i := 0; i < nCodec; i++ {
 		id := fmt.Sprintf("codec:%d", i)
 		if !c.Want(id) {
